@@ -7,7 +7,7 @@ CONSTANT MaxSeq
 
 E0(a, ex, inst) == Ev(a, ex, inst, "", "", "-", 0, FALSE, "-", <<>>, NoFilter)
 F(k, set) == [k |-> k, set |-> set]
-Filters == {NoFilter, F("Exchanges", <<0>>), F("Exchanges", <<1>>), F("Instruments", <<1>>),
+Filters == {NoFilter, F("Exchanges", <<0>>), F("Exchanges", <<1>>), F("Instruments", <<1>>), F("Instruments", <<0, 4, 0>>),
             F("Instruments", <<0, 4>>), F("Underlyings", <<0>>), F("Underlyings", <<2>>), F("Underlyings", <<3, 4>>)}
 
 MCEvents ==
